@@ -545,3 +545,97 @@ def observe_bool(p, name, s, model):
     except Exception:  # noqa
         return None
     return q.value if isinstance(q.value, bool) else None
+
+
+# ---------------------------------------------------------------------------------------------------------
+# unit-qualified values ("20000 meter"): the range verdict must be that of the converted value
+# ---------------------------------------------------------------------------------------------------------
+CURRENCY_TYPES = ('CURRENCY', 'CURRENCYFREQUENCY', 'COSTPERMASS', 'ENERGYCOST')
+
+
+def unit_family(p):
+    """other members (texts) of the catalogue enum the parameter's CurrentUnits belongs to; [] when not convertible by pint"""
+    import enum
+    cur = p.CurrentUnits
+    if not isinstance(cur, enum.Enum) or not isinstance(cur.value, str) or getattr(p.UnitType, 'name', '') in CURRENCY_TYPES:
+        return []
+    return [m.value for m in type(cur) if m is not cur and isinstance(m.value, str) and m.value and ' ' not in m.value]
+
+
+def convert_as_reader(x, unit, cur_text):
+    """float(x) `unit` expressed in the parameter's CurrentUnits, computed with the repository's pint registry by the
+    same operations ConvertUnits performs (the conversion is data for the Coq model); None when pint cannot"""
+    from geophires_x.Units import get_unit_registry
+    ureg = get_unit_registry()
+    try:
+        old = ureg.Quantity(0.000, cur_text)
+        new = ureg.Quantity(float(x), unit)
+        if old.units == new.units:
+            return float(x)
+        new.ito(old)
+        c = float(str(new.magnitude))
+    except Exception:  # noqa
+        return None
+    return c if math.isfinite(c) else None
+
+
+def unit_probes(p, r, max_units, with_current=False):
+    """[(tag, sValue, c)]: values written in other units of the family whose converted value c (in CurrentUnits) lies at /
+    just inside / just outside the declared bounds; the tag is decided by c itself"""
+    from geophires_x.Units import get_unit_registry
+    ureg = get_unit_registry()
+    cur = p.CurrentUnits.value if hasattr(p.CurrentUnits, 'value') else None
+    lo, hi = float(r['min']), float(r['max'])
+    out = []
+    for unit in ([cur] if with_current else []) + unit_family(p)[:max_units]:
+        for target in (lo, hi):
+            try:
+                x0 = float(ureg.Quantity(target, cur).to(unit).magnitude)
+            except Exception:  # noqa
+                break
+            if not math.isfinite(x0) or abs(x0) > 1e300:
+                continue
+            seen = set()
+            for x in (x0, x0 * (1 - 1e-12) - 1e-300, x0 * (1 + 1e-12) + 1e-300, x0 * 0.5, x0 * 2 + 1, x0 - 1 - abs(x0)):
+                c = convert_as_reader(x, unit, cur)
+                if c is None or fl(x) in seen or 'e' in fl(x) and abs(x) < 1e-300:
+                    continue
+                seen.add(fl(x))
+                tag = 'unit-in' if lo <= c <= hi else 'unit-below' if c < lo else 'unit-above'
+                out.append((tag, f'{fl(x)} {unit}', Fraction(c), unit))
+    return out
+
+
+def hip_calculate(job):
+    """Worker: HIP_RA_X on base text + one overriding line: read_parameters, then Calculate.
+    -> value the parameter holds afterwards (float) | ('read', text) | ('calc', text)"""
+    import logging
+    import os
+    import sys
+    import uuid
+    from pathlib import Path
+    base_text, name, s, scratch = job
+    logging.disable(logging.CRITICAL)
+    path = Path(scratch, f'hipc_{uuid.uuid4().hex[:12]}.txt')
+    path.write_text(with_line(base_text, name, s))
+    stash = (os.getcwd(), sys.argv)
+    try:
+        with contextlib.redirect_stdout(io.StringIO()), contextlib.redirect_stderr(io.StringIO()):
+            from hip_ra_x.hip_ra_x import HIP_RA_X
+            sys.argv = ['', str(path)]
+            m = HIP_RA_X(enable_hip_ra_logging_config=False)
+            try:
+                m.read_parameters()
+            except BaseException as e:  # noqa
+                return ('read', f'{type(e).__name__}: {e}'[:160])
+            try:
+                m.Calculate()
+            except BaseException as e:  # noqa
+                return ('calc', f'{type(e).__name__}: {e}'[:160])
+            v = m.ParameterDict[name].value
+            return float(v) if isinstance(v, (int, float)) and not isinstance(v, bool) else ('calc', f'holds {v!r}')
+    finally:
+        os.chdir(stash[0])
+        sys.argv = stash[1]
+        with contextlib.suppress(OSError):
+            path.unlink()
